@@ -59,7 +59,12 @@ impl Stream for SocketStream {
                 let a = parse_addr(addr);
                 let tid = socket.request(a, dht::RequestSpecific { requester_id: Id::from_bytes([7; 20]).expect("id"), request_type: RequestTypeSpecific::Ping });
                 let sent = verif::drain_outbox();
-                self.outstanding.insert(tid, (a, now, false));
+                if let Some((a0, sent_at, seen_expired)) = self.outstanding.insert(tid, (a, now, false)) {
+                    // the caller of `request` (a lookup or a put) files the request under this id
+                    if !seen_expired && now - sent_at < socket.verif_inflight().3 {
+                        out.violation("C09", "tid-reused", format!("request() to {} returned transaction id {tid}, which the request to {} issued {} ns ago still carries: a reply with that id is attributed to both", addr_s(&a), addr_s(&a0), now - sent_at));
+                    }
+                }
                 let ro = sent.last().and_then(|(_, _, b)| Msg::from_bytes(b).ok()).map(|m| m.read_only()).unwrap_or(false);
                 format!("tid={} ro={}", tid, ro as u8)
             }
